@@ -680,5 +680,5 @@ func (check) ExtraCoverage(tier string, counts map[string]int64) map[string]inte
 		names = append(names, p.Name)
 	}
 	sort.Strings(names)
-	return map[string]interface{}{"programs": names, "option_sets_per_program": "3*3*(services+2)*3*2^5", "native_flavours": flavours}
+	return map[string]interface{}{"program_names": names, "programs": len(names), "option_sets_per_program": "3*3*(services+2)*3*2^5", "native_flavours": flavours}
 }
